@@ -277,8 +277,8 @@ func R08(group string) Rule {
 					}
 				}
 			}
-			if len(searches) < 2 {
-				c.Unknown("R08", "applyMutations/DeleteFromColumn/searches", fn.Pos(), "expected two sort.Search calls (interval ends), found %d", len(searches))
+			if len(searches) == 0 {
+				c.Infof("R08", "applyMutations/DeleteFromColumn/searches", fn.Pos(), "no binary search over cells in the applier: the interval-validity guards have nothing to protect here")
 			}
 			for i, sc := range searches {
 				okStart := P.InAllContexts(sc, nil, within, func(at ssa.Instruction, _ []ssa.Value) bool {
@@ -353,15 +353,22 @@ func R08(group string) Rule {
 			ins := scopeCallsTo(P.Scope(fn, func(f *ssa.Function) bool {
 				return core.PkgPathOf(f) != core.PkgBttest || core.FuncName(f) == "appendOrReplaceCell" || core.FuncName(f) == "applyMutations"
 			}), core.PkgBttest, "appendOrReplaceCell")
-			if len(ins) != 1 {
-				c.Unknown("R08", "ReadModifyWriteRow/insert", fn.Pos(), "expected one appendOrReplaceCell call, found %d", len(ins))
-			} else {
-				e := ins[0]
+			if len(ins) == 0 {
+				c.Unknown("R08", "ReadModifyWriteRow/insert", fn.Pos(), "no appendOrReplaceCell call reachable from ReadModifyWriteRow")
+			}
+			rmwWithin := setOf(P.Scope(fn, nil))
+			for i, e := range ins {
+				sfx := ""
+				if i > 0 {
+					sfx = fmt.Sprintf("#%d", i+1)
+				}
 				name := familyNameFeeding(e.Call.Args[0])
-				ok := name != nil && factLookupOk(e.Block(), func(lk *ssa.Lookup) bool {
-					return isLiveFamilies(lk.X) && sameFieldLoad(lk.Index, name)
+				ok := name != nil && P.InAllContexts(e, []ssa.Value{name}, rmwWithin, func(at ssa.Instruction, vals []ssa.Value) bool {
+					return vals[0] != nil && factLookupOk(at.Block(), func(lk *ssa.Lookup) bool {
+						return isLiveFamiliesAnywhere(P, lk.X) && sameFieldLoad(lk.Index, vals[0])
+					})
 				})
-				c.Check(ok, "R08", "ReadModifyWriteRow/family-known", e.Pos(),
+				c.Check(ok, "R08", "ReadModifyWriteRow/family-known"+sfx, e.Pos(),
 					"cell insertion is dominated by the ok-edge of the lookup of the rule's family in the live family map",
 					"a read-modify-write rule reaches the cell insertion without its family having been found in the table's live family map")
 			}
